@@ -96,6 +96,8 @@ class RunResult(object):
     self.digest = hash((self.digest, sim.digest))
     if sim.switches:
       self.interleavings.append(sim.switch_signature())
+    if sim.abstract_states:
+      self.states.extend(hash(x) for x in sim.abstract_states)
 
 
 # ------------------------------------------------------------------ known findings
@@ -568,6 +570,7 @@ def write_evidence(pid, tier, base_seed, check, agg, wall, search_s, n_new, know
     'distinct_interleavings': len(agg['interleavings']),
     'distinct_interleavings_measure': 'hash of the first 400 (from-role, to-role, wait-point) triples at context switches of a run',
     'distinct_abstract_states': len(agg['states']),
+    'distinct_abstract_states_measure': 'per object (pending events, wake-up tokens, live timer threads) + fabric (live delivery threads, queued publications), sampled at context switches (0 = not measured by this world)',
     'real_code': ['miros/hsm.py', 'miros/activeobject.py', 'miros/event.py', 'miros/singleton.py',
                   'miros/thread_safe_attributes.py'],
     'stubs': ['threading.Thread', 'threading.Event', 'threading.RLock', 'queue.Queue',
